@@ -51,6 +51,7 @@ class _ObjClasses(dict):
             from packaging import requirements as RQ
             self["Requirement"] = (RQ.Requirement, ["name", "url", "extras", "specifier", "marker"])
             # --- x6
+            self["Metadata"] = (MD.Metadata, [])          # fields: the instance dict, see enc_val
             from packaging import _elffile as EF
             self["ELFFile"] = (EF.ELFFile, ["_f", "capacity", "encoding", "_p_fmt", "_p_idx", "machine", "_e_phoff", "flags",
                                             "_e_phentsize", "_e_phnum"])
@@ -84,6 +85,8 @@ def enc_val(v) -> str:
         return "Obytes{v=L[" + ",".join("i" + str(b) for b in v) + "]}"
     if type(v).__name__ == "BytesIO":                                          # x6: contents and position
         return "OBytesIO{data=" + enc_val(v.getvalue()) + ",pos=i" + str(v.tell()) + "}"
+    if type(v).__name__ == "Metadata" and type(v).__module__ == "packaging.metadata":   # x6: the instance dict, in order
+        return "OMetadata{" + ",".join(f"{k}={enc_val(x)}" for k, x in vars(v).items()) + "}"
     if isinstance(v, WireObj):                                                 # x6
         return "O" + v.cls + "{" + ",".join(f"{k}={enc_val(x)}" for k, x in v.fields.items()) + "}"
     if isinstance(v, Env):
@@ -1857,6 +1860,50 @@ def _g_validator_ctype(rng):
     return [oracle, MD.Metadata.__dict__["description_content_type"], v]
 
 
+def _g_validator_get(rng):
+    """`_Validator.__get__(self, instance, owner)`: a `Metadata` instance with a raw dict (and sometimes cached attributes), a
+    validator of the class; the oracle table is recorded while the real descriptor runs on a copy"""
+    import copy
+    import email.message
+    from packaging import metadata as MD
+    from gen import metadata as GM
+    validators = [k for k, v in vars(MD.Metadata).items() if isinstance(v, MD._Validator)]
+    raw = {k: v for k, v in GM.raw_dict(rng)[0].items() if isinstance(k, str)}
+    def clean(v):
+        if isinstance(v, str):
+            return "".join(c for c in v if not 0xD800 <= ord(c) <= 0xDFFF)
+        if isinstance(v, list):
+            return [clean(x) for x in v]
+        if isinstance(v, dict):
+            return {clean(a): clean(b) for a, b in v.items()}
+        return v
+    raw = {k: clean(v) for k, v in raw.items()}
+    present = [k for k in raw if k in validators]
+    key = rng.choice(present) if present and rng.random() < 0.75 else rng.choice(validators)
+    ins = object.__new__(MD.Metadata)
+    ins._raw = raw
+    if rng.random() < 0.2:                       # attributes read earlier sit in the instance dict
+        for k in rng.sample(validators, 2):
+            if k != key and k in raw and isinstance(raw[k], str):
+                ins.__dict__[k] = raw.pop(k)
+    self_ = vars(MD.Metadata)[key]
+    f = _resolve("packaging.metadata", "_Validator.__get__")
+    oracle = _record_dotted("packaging.metadata", METADATA_ORACLES, f, [self_, copy.deepcopy(ins), None])
+    v = raw.get(key)
+    if key == "description_content_type" and isinstance(v, str):
+        m = email.message.EmailMessage()
+        try:
+            m["content-type"] = v
+            ans = (m.get_content_type().lower(), {k: x for k, x in dict(m["content-type"].params).items() if k in ("charset", "variant")})
+        except Exception as e:
+            ans = Raise(type(e).__name__)
+        oracle.append(("EmailMessage.set_content_type", (v,), ans))
+    for x in ([v] if isinstance(v, str) else v if isinstance(v, list) else []):       # `str.lower` cannot be intercepted
+        if isinstance(x, str):
+            oracle.append(("str.lower", (x,), x.lower()))
+    return [oracle, self_, ins, None]
+
+
 _ML, _MU = "packaging._manylinux", "packaging._musllinux"
 FUNCS.update({
     "_parse_musl_version": (_MU, "_parse_musl_version", _g_parse_musl),
@@ -1875,6 +1922,10 @@ FUNCS.update({
 FUNCS["_Validator._process_description_content_type"] = ("packaging.metadata", "_Validator._process_description_content_type",
                                                            _g_validator_ctype)
 EXT_FUNCS |= {"_Validator._process_description_content_type"}
+FUNCS["_Validator.__get__"] = ("packaging.metadata", "_Validator.__get__", _g_validator_get)
+EXT_FUNCS |= {"_Validator.__get__"}
+# functions that update one argument in place: the answer is the result together with that argument afterwards
+X6_INOUT = {"_Validator.__get__": 1}
 X6_ENV_FUNCS = {"_musllinux.platform_tags", "_is_compatible", "_manylinux.platform_tags", "_have_compatible_abi", "_get_glibc_version",
                 "_linux_platforms", "mac_platforms", "ios_platforms", "tags.platform_tags"}
 
@@ -1930,6 +1981,8 @@ class _Src:
                 r = f(*pos, **kw)
                 if name in STATE_FUNCS:
                     return "ok " + enc_val((r, pos[0]))
+                if name in X6_INOUT:                         # x6
+                    return "ok " + enc_val((r, pos[X6_INOUT[name]]))
                 if name.endswith(".__init__") or name in SETTER_FUNCS:
                     r = pos[0]                     # x3: the translated `__init__` hands back the initialised object
                 with _transparent(name):           # x5
